@@ -682,6 +682,9 @@ fn rich_model(enc0: Enc, enc1: Enc, line_form: u8, feature: u64) -> Model {
             ];
             u0.entries[2].attrs.push((AT_RANGES, MV::RngRef(0)));
             u0.entries[4].attrs.push((AT_RANGES, MV::RngRef(1)));
+            // DW_AT_start_scope: the other rangelistptr-class attribute (DWARF 3: a data4/data8
+            // section offset, read through the relocating primitive for versions 2 and 3 only)
+            u0.entries[3].attrs.push((0x2c, MV::RngRef(1)));
             u1.ranges = vec![vec![MRange::Base(sym_of(1)), MRange::OffsetPair(1, 2)]];
             u1.entries[1].attrs.push((AT_RANGES, MV::RngRef(0)));
         }
@@ -693,6 +696,12 @@ fn rich_model(enc0: Enc, enc1: Enc, line_form: u8, feature: u64) -> Model {
             ];
             u0.entries[2].attrs.push((AT_LOCATION, MV::LocRef(0)));
             u0.entries[4].attrs.push((AT_LOCATION, MV::LocRef(1)));
+            // every other loclistptr-class attribute of DWARF 3 (string_length, return_addr,
+            // data_member_location, frame_base, segment, static_link, use_location,
+            // vtable_elem_location)
+            for (k, name) in [0x19u16, 0x2a, 0x38, 0x40, 0x46, 0x48, 0x4a, 0x4d].iter().enumerate() {
+                u0.entries[[3usize, 5][k % 2]].attrs.push((*name, MV::LocRef(k % 2)));
+            }
             u1.locs = vec![vec![MLoc::Base(sym_of(1)), MLoc::OffsetPair(1, 2, vec![MOp::VariableValue(b)])]];
             u1.entries[1].attrs.push((AT_LOCATION, MV::LocRef(0)));
         }
